@@ -447,6 +447,19 @@ def topo_archetypes(rng, zones):
     def spread_two_terms(p):
         p["labels"]["app"] = "s"; p["spread"] = [topo_spread("zone")]
         p["terms"] = [[expr("zone", "In", [z()])], [expr("zone", "In", [z()])]]
+    # spread pods with several DIFFERENT required node-affinity terms (OR): a first term of two zones + another zone (disjoint), overlapping
+    # terms, one unsatisfiable term (first or last), under both nodeAffinityPolicy values
+    def _or_terms(p, terms): p["labels"]["app"] = "s"; p["spread"] = [topo_spread("zone", affPol=rng.choice(["", "", "Ignore"]))]; p["terms"] = terms
+    def spread_or_disjoint(p):
+        zs = rng.sample(zones, len(zones)) if len(zones) >= 2 else zones * 2
+        _or_terms(p, [[expr("zone", "In", zs[:2] if len(zones) > 2 else zs[:1])], [expr("zone", "In", zs[-1:])]])
+    def spread_or_overlap(p):
+        zs = rng.sample(zones, len(zones)) if len(zones) >= 2 else zones * 2
+        _or_terms(p, [[expr("zone", "In", zs[:2])], [expr("zone", "In", zs[1:])]])
+    def spread_or_unsat(p):
+        t = [[expr("zone", "In", ["nozone"])], [expr("zone", "In", list(zones))]]
+        _or_terms(p, t if rng.random() < 0.5 else t[::-1])
+    def spread_or_three(p): _or_terms(p, [[expr("zone", "In", [zn])] for zn in rng.sample(zones, len(zones))] + [[expr("zone", "In", ["nozone"])]])
     def spread_ignore(p): p["labels"]["app"] = "s"; p["spread"] = [topo_spread("zone", affPol="Ignore")]; p["sel"]["zone"] = z()
     def spread_honor_taints(p): p["labels"]["app"] = "s"; p["spread"] = [topo_spread("zone", taintPol="Honor")]
     def spread_honor_tol(p): p["labels"]["app"] = "s"; p["spread"] = [topo_spread("zone", taintPol="Honor")]; p["tol"] = [dict(TOL_TAINT)]
@@ -478,6 +491,9 @@ def topo_archetypes(rng, zones):
     def plain_d(p): p["labels"]["app"] = "d"
     def aff_g_d(p): p["labels"]["app"] = "g"; p["aff"] = [topo_term(rng.choice(["zone", "host"]), "d")]
     def aff_d_d(p): p["labels"]["app"] = "d"; p["aff"] = [topo_term("zone", "d")]
+    # (the OR-term spread archetypes are not mixed into arbitrary batches: explore_topo submits them as a deployment - replicas with
+    #  identical terms - see topo_or_terms)
+    topo_archetypes.or_terms = [spread_or_disjoint, spread_or_disjoint, spread_or_overlap, spread_or_unsat, spread_or_three]
     fns = [guard_host, db_host, guard_zone, db_zone, plain_d, aff_g_d, aff_d_d,
            plain_x, plain_s, plain_s_zone, self_anti_host, self_anti_zone, anti_x, anti_x_labelled, aff_x, self_aff_zone, self_aff_host,
            self_aff_zone_sel, aff_and_anti, pref_anti, pref_aff, spread_zone, spread_zone2, spread_zone_min, spread_host, spread_zone_host,
@@ -616,10 +632,22 @@ def explore_topo(rng, name="x"):
     focus = rng.sample(arch, rng.choice([1, 2, 2, 3]))
     n = rng.choice([2, 3, 3, 4, 4, 5, 6, 8])
     big = max(t["cpu"] for t in types)
+    deployment = None
+    if rng.random() < 0.15:
+        # a deployment of spread pods with several DIFFERENT required node-affinity terms (OR): every replica carries the same terms; the
+        # other pods of the batch carry no spread constraint of their own (nothing else whose node filter could be confused with theirs)
+        deployment = plain_pod("proto", 0, 0)
+        rng.choice(topo_archetypes.or_terms)(deployment)
+        focus = [f for f in arch if f.__name__ in ("plain_x", "plain_s", "self_anti_host", "anti_x", "aff_x", "self_aff_zone", "plain_d", "guard_host", "db_host")][:]
+        n = max(n, 4)
     for i in range(n):
         p = plain_pod("w%d" % i, rng.choice([100, 200, 300, 400, 500, 700, 900, 1100, big // 2 + 100]), rng.choice([64, 128, 256]))
         p["created"] = rng.randrange(3)
-        (rng.choice(focus) if rng.random() < 0.75 else rng.choice(arch))(p)
+        if deployment is not None and (i < 3 or rng.random() < 0.6):
+            p["labels"], p["spread"], p["terms"] = copy.deepcopy(deployment["labels"]), copy.deepcopy(deployment["spread"]), copy.deepcopy(deployment["terms"])
+            pods.append(p)
+            continue
+        (rng.choice(focus) if rng.random() < 0.75 or deployment is not None else rng.choice(arch))(p)
         r = rng.random()
         if r < 0.08 and not p["sel"]:
             p["sel"]["zone"] = rng.choice(zones)
